@@ -18,7 +18,7 @@ var c02Tampers = []string{
 	// shared catalogue (see tamperSigned)
 	"reveal-other-key", "reveal-malformed", "alg-not-allowed", "alg-missing", "alg-empty", "extra-header", "bad-signature",
 	"signed-by-other-key", "payload-changed-not-resigned", "key-missing-member", "jws-two-segments", "jws-bad-base64",
-	"payload-not-json", "missing-signed-data", "missing-reveal", "reveal-respelled", "reveal-shortened", "header-duplicate-member",
+	"payload-not-json", "missing-signed-data", "missing-reveal", "reveal-respelled", "reveal-shortened", "header-duplicate-member", "reveal-edited", "header-not-object", "alg-not-string",
 	// C02-specific
 	"field-reencoded-not-resigned", "key-substituted-not-resigned", "key-substituted-resigned-reveal-kept", "key-substituted-resigned-reveal-shortened", "alg-other-allowed-not-resigned",
 	"header-kid-added-not-resigned", "signature-truncated", "signature-padded", "signature-empty", "segment-base64-padded", "four-segments",
